@@ -603,7 +603,7 @@ class Run(ExtraOps):
             u |= pred_udfs(op["p"])
         for tm in op.get("terms", []):
             u |= expr_udfs(tm[0])
-        if "pdiv" in u and (M.is_sql(t.mv.engine) or op.get("pe") is not None):
+        if ("pdiv" in u or "bitlen" in u) and (M.is_sql(t.mv.engine) or op.get("pe") is not None):
             return False
         return "only2" not in u or (t.mv.engine == "it2" and op.get("pe") in (None, "it2"))
 
